@@ -138,7 +138,7 @@ def gen_params(r):
     L = r.choice([1, 2, 8, 16])
     mod = r.getrandbits(8 * L) | 1 | (1 << (8 * L - 1))
     native = r.choice(ACCEPTED_PF) if r.random() < .7 else r.choice(ODD_PF)
-    return {"ver": ver, "scheme": r.choice([0, 1, 1, 2, 2, 3, 30, 0xFFFFFFFF]), "offer": offer,
+    return {"ver": ver, "scheme": r.choice([0, 1, 1, 2, 2, 3, 30, 0xFFFFFFFF, 256, 257, 258, 0x101, 0x10002, 0x1000001, 0x80000002]), "offer": offer,
             "challenge": bytes(r.randrange(256) for _ in range(16)), "result": r.choice([0, 0, 0, 1, 2, 3, 0xFFFFFFFF]),
             "reason": bytes(r.randrange(256) for _ in range(r.choice([0, 0, 1, 2, 255, 1000]))),
             "gen": r.choice([2, 5]), "keylen": L, "modulus": mod.to_bytes(L, "big"), "serverkey": r.getrandbits(8 * L - 1).to_bytes(L, "big"),
